@@ -426,8 +426,8 @@ func (s *Session) writeCompressed(rw io.ReadWriter, p *Proposal) (err error) {
 	writer := bufio.NewWriter(rw)
 
 	var (
-		title    = mime.QEncoding.Encode("utf-8", p.title) // Word-encode the title since this field must be ASCII-only
 		offset   = fmt.Sprintf("%d", p.offset)
+		title    = encodeTitle(p.title, 255-len(offset)-2) // The header length is a single byte
 		length   = len(title) + len(offset) + 2
 		checksum int64
 	)
@@ -527,6 +527,17 @@ func (s *Session) writeCompressed(rw io.ReadWriter, p *Proposal) (err error) {
 	statusTicker.Stop()
 
 	return err
+}
+
+// encodeTitle word-encodes the title (this field must be ASCII-only), dropping
+// trailing characters until the encoded title is no longer than max bytes.
+func encodeTitle(title string, max int) string {
+	encoded := mime.QEncoding.Encode("utf-8", title)
+	for r := []rune(title); len(encoded) > max && len(r) > 0; {
+		r = r[:len(r)-1]
+		encoded = mime.QEncoding.Encode("utf-8", string(r))
+	}
+	return encoded
 }
 
 func (s *Session) readCompressed(rw io.ReadWriter, p *Proposal) (err error) {
